@@ -12,35 +12,72 @@ structure Solvent (s : St) : Prop where
   short : s.recShort ≤ s.vaultShort
   supply : s.burned ≤ s.minted
 
-theorem complete_some {s s' : St} {u k i x y : Nat} {act : Act} (h : complete s u k i act x y = some s') :
-    ∃ act', act'.state = 1 ∧ s'.acts = (setAct s u k i (some act')).acts ∧ s'.users = s.users ∧
-      s'.now = s.now ∧ s'.priceTs = s.priceTs ∧ (Solvent s → Solvent s') := by
-  rcases k with _ | _ | _ | _ | k
-  · simp only [complete] at h; simp at h; subst h
-    exact ⟨_, rfl, rfl, rfl, rfl, rfl, fun hs => ⟨by simp [setAct]; have := hs.long; omega,
-      by simp [setAct]; have := hs.short; omega, by simp [setAct]; have := hs.supply; omega⟩⟩
-  · simp only [complete] at h; simp at h
-    obtain ⟨hg, rfl⟩ := h
-    exact ⟨_, rfl, rfl, rfl, rfl, rfl, fun hs => ⟨by simp [setAct]; have := hs.long; omega,
-      by simp [setAct]; have := hs.short; omega, by simp [setAct]; omega⟩⟩
-  · simp only [complete] at h; simp at h
-    obtain ⟨hg, rfl⟩ := h
-    exact ⟨_, rfl, rfl, rfl, rfl, rfl, fun hs => ⟨by simp [setAct]; have := hs.long; omega,
-      by simp [setAct]; have := hs.short; omega, by simp [setAct]; exact hs.supply⟩⟩
-  · simp only [complete] at h; simp at h
-    obtain ⟨hg, rfl⟩ := h
-    exact ⟨_, rfl, rfl, rfl, rfl, rfl, fun hs => ⟨by simp [setAct]; have := hs.long; omega,
-      by simp [setAct]; have := hs.short; omega, by simp [setAct]; exact hs.supply⟩⟩
-  · simp only [complete] at h; simp at h; subst h
-    exact ⟨_, rfl, rfl, rfl, rfl, rfl, fun hs => ⟨by simp [setAct]; have := hs.long; omega,
-      by simp [setAct]; exact hs.short, by simp [setAct]; exact hs.supply⟩⟩
+theorem escrowOf_out {usr : User} {k a b l sh m : Nat} (h : escrowOf usr k a b = some (l, sh, m)) :
+    outSide k ⟨0, l, sh, m, 0, 0, false, 0, 0⟩ = (0, 0, 0) := by
+  rcases k with _ | _ | _ | _ | _ | k
+  · simp [escrowOf] at h
+    obtain ⟨_, _, _, hm⟩ := h; simp [outSide, ← hm]
+  · simp [escrowOf] at h
+    obtain ⟨_, hl, hs, _⟩ := h; simp [outSide, ← hl, ← hs]
+  · simp [escrowOf] at h
+    obtain ⟨_, _, hs, _⟩ := h; simp [outSide, ← hs]
+  · simp [escrowOf] at h
+    obtain ⟨_, hl, _, _⟩ := h; simp [outSide, ← hl]
+  · simp [outSide]
+  · simp [escrowOf] at h
+    obtain ⟨hl, hs, _⟩ := h; simp [outSide, ← hl, ← hs]
 
-theorem exec_some {s s' : St} {who : Who} {u k i fee x y : Nat} {throw fail : Bool} {o : Outcome} {paid : Nat}
-    {hard : Bool} (h : exec s who u k i fee throw fail x y hard = some (s', o, paid)) :
-    hard = false ∧ who = .keeper ∧ ∃ act, s.acts u k i = some act ∧ act.state = 0 ∧
+/-- the pool-level funds (vaults, recorded balances, minted / burned) are untouched. -/
+def SameFunds (s s' : St) : Prop :=
+  s'.vaultLong = s.vaultLong ∧ s'.vaultShort = s.vaultShort ∧ s'.recLong = s.recLong ∧ s'.recShort = s.recShort ∧
+  s'.minted = s.minted ∧ s'.burned = s.burned
+
+theorem solvent_of_same {s s' : St} (h : SameFunds s s') (hs : Solvent s) : Solvent s' := by
+  obtain ⟨a, b, c, d, e, f⟩ := h
+  exact ⟨by rw [a, c]; exact hs.long, by rw [b, d]; exact hs.short, by rw [e, f]; exact hs.supply⟩
+
+theorem complete_some {s s' : St} {u k i x y cl cs ch : Nat} {pc : Bool} {act : Act}
+    (h : complete s u k i act x y cl cs ch pc = some s') :
+    ∃ act', act'.state = 1 ∧ act'.receiver = act.receiver ∧ s'.acts = (setAct s u k i (some act')).acts ∧ s'.users = s.users ∧
+      (Solvent s → Solvent s') ∧ (outSide k act = (0, 0, 0) → inSide k act' = (0, 0, 0)) := by
+  rcases k with _ | _ | _ | _ | _ | k
+  · simp only [complete] at h; simp at h; subst h
+    exact ⟨{ act with state := 1, escLong := 0, escShort := 0, escMt := act.escMt + x }, rfl, rfl, rfl, rfl,
+      fun hs => ⟨by simp [setAct]; have := hs.long; omega,
+      by simp [setAct]; have := hs.short; omega, by simp [setAct]; have := hs.supply; omega⟩, fun _ => by simp [inSide]⟩
+  · simp only [complete] at h; simp at h
+    obtain ⟨hg, rfl⟩ := h
+    exact ⟨{ act with state := 1, escLong := act.escLong + x, escShort := act.escShort + y, escMt := 0 }, rfl, rfl, rfl, rfl,
+      fun hs => ⟨by simp [setAct]; have := hs.long; omega,
+      by simp [setAct]; have := hs.short; omega, by simp [setAct]; omega⟩, fun _ => by simp [inSide]⟩
+  · simp only [complete] at h; simp at h
+    obtain ⟨hg, rfl⟩ := h
+    exact ⟨{ act with state := 1, escLong := 0, escShort := act.escShort + x }, rfl, rfl, rfl, rfl,
+      fun hs => ⟨by simp [setAct]; have := hs.long; omega,
+      by simp [setAct]; have := hs.short; omega, by simp [setAct]; exact hs.supply⟩, fun _ => by simp [inSide]⟩
+  · simp only [complete] at h; simp at h
+    obtain ⟨hg, rfl⟩ := h
+    exact ⟨{ act with state := 1, escShort := 0, escLong := act.escLong + x }, rfl, rfl, rfl, rfl,
+      fun hs => ⟨by simp [setAct]; have := hs.long; omega,
+      by simp [setAct]; have := hs.short; omega, by simp [setAct]; exact hs.supply⟩, fun _ => by simp [inSide]⟩
+  · simp only [complete] at h; simp at h; subst h
+    exact ⟨{ act with state := 1, escLong := 0 }, rfl, rfl, rfl, rfl,
+      fun hs => ⟨by simp [setAct]; have := hs.long; omega,
+      by simp [setAct]; exact hs.short, by simp [setAct]; exact hs.supply⟩, fun _ => by simp [inSide]⟩
+  · simp only [complete] at h; simp at h
+    obtain ⟨_, _, hg, rfl⟩ := h
+    exact ⟨{ act with state := 1, escLong := act.escLong + x, escShort := act.escShort + y }, rfl, rfl, rfl, rfl,
+      fun hs => ⟨by simp [setAct]; have := hs.long; omega,
+      by simp [setAct]; have := hs.short; omega, by simp [setAct]; exact hs.supply⟩, fun _ => by simp [inSide]⟩
+
+theorem exec_some {s s' : St} {who : Who} {u k i fee x y cl cs ch : Nat} {throw fail hard pc : Bool} {o : Outcome} {paid : Nat}
+    (h : exec s who u k i fee throw fail x y hard cl cs ch pc = some (s', o, paid)) :
+    hard = false ∧ who = .keeper ∧ ∃ act, s.acts u k i = some act ∧ act.state = 0 ∧ (k ≥ 4 → s.posOpen u = true) ∧
       paid = (if fee ≤ act.execLamports then fee else act.execLamports) ∧
-      ((o = .cancelled ∧ throw = false ∧ s' = setAct s u k i (some { act with state := 2 })) ∨
-       (o = .completed ∧ act.soft = false ∧ fail = false ∧ complete s u k i act x y = some s')) := by
+      ((o = .cancelled ∧ throw = false ∧ s'.acts = (setAct s u k i (some { act with state := 2 })).acts ∧
+          s'.users = s.users ∧ SameFunds s s' ∧ s'.posSize = s.posSize ∧
+          (∀ v, s'.posOpen v = false → s.posOpen v = false ∨ s.posSize v = 0)) ∨
+       (o = .completed ∧ act.soft = false ∧ fail = false ∧ complete s u k i act x y cl cs ch pc = some s')) := by
   unfold exec at h
   split at h; · cases h
   rename_i hhard
@@ -52,27 +89,47 @@ theorem exec_some {s s' : St} {who : Who} {u k i fee x y : Nat} {throw fail : Bo
     split at h; · cases h
     rename_i hst
     split at h; · cases h
+    rename_i hpos
     split at h; · cases h
-    have hsoft : ∀ {r : Option (St × Outcome × Nat)},
-        r = (if throw then none else some (setAct s u k i (some { act with state := 2 }), Outcome.cancelled,
-          if fee ≤ act.execLamports then fee else act.execLamports)) → r = some (s', o, paid) →
-        o = .cancelled ∧ throw = false ∧ s' = setAct s u k i (some { act with state := 2 }) ∧
-          paid = (if fee ≤ act.execLamports then fee else act.execLamports) := by
-      intro r hr he
-      rw [hr] at he
-      cases throw with
-      | true => simp at he
-      | false => simp at he; obtain ⟨a, b, c⟩ := he; exact ⟨b.symm, rfl, a.symm, c.symm⟩
-    refine ⟨by simpa using hhard, by simpa using hw, act, hact, by simpa using hst, ?_⟩
+    split at h; · cases h
+    have hpos' : k ≥ 4 → s.posOpen u = true := by
+      intro hk
+      cases hp : s.posOpen u with
+      | true => rfl
+      | false => exact absurd ⟨hk, hp⟩ hpos
+    refine ⟨by simpa using hhard, by simpa using hw, act, hact, by simpa using hst, hpos', ?_⟩
     simp only at h
     split at h
-    · obtain ⟨a, b, c, d⟩ := hsoft rfl h
-      exact ⟨d, Or.inl ⟨a, b, c⟩⟩
+    · -- expired
+      cases throw with
+      | true => simp at h
+      | false =>
+        simp at h; obtain ⟨a, b, c⟩ := h
+        exact ⟨c.symm, Or.inl ⟨b.symm, rfl, by rw [← a], by rw [← a]; rfl, by rw [← a]; exact ⟨rfl, rfl, rfl, rfl, rfl, rfl⟩,
+          by rw [← a]; rfl, fun v hv => Or.inl (by rw [← a] at hv; exact hv)⟩⟩
     · split at h
-      · obtain ⟨a, b, c, d⟩ := hsoft rfl h
-        exact ⟨d, Or.inl ⟨a, b, c⟩⟩
+      · cases throw with
+        | true => simp at h
+        | false =>
+          simp at h; obtain ⟨a, b, c⟩ := h
+          refine ⟨c.symm, Or.inl ⟨b.symm, rfl, ?_, ?_, ?_, ?_, ?_⟩⟩
+          · rw [← a]; unfold cancelState; simp only; split <;> rfl
+          · rw [← a]; unfold cancelState; simp only; split <;> rfl
+          · rw [← a]; unfold cancelState; simp only; split <;> exact ⟨rfl, rfl, rfl, rfl, rfl, rfl⟩
+          · rw [← a]; unfold cancelState; simp only; split <;> rfl
+          · intro v hv
+            rw [← a] at hv
+            unfold cancelState at hv
+            simp only at hv
+            split at hv
+            · rename_i hc
+              simp only [setAct] at hv
+              by_cases hvu : v = u
+              · subst hvu; exact Or.inr hc.2
+              · simp [hvu] at hv; exact Or.inl hv
+            · exact Or.inl hv
       · rename_i hsf
-        cases hc : complete s u k i act x y with
+        cases hc : complete s u k i act x y cl cs ch pc with
         | none => simp [hc] at h
         | some s'' =>
           simp [hc] at h
@@ -81,9 +138,12 @@ theorem exec_some {s s' : St} {who : Who} {u k i fee x y : Nat} {throw fail : Bo
           exact ⟨c.symm, Or.inr ⟨b.symm, hsf.1, hsf.2, by rw [← a]⟩⟩
 
 theorem create_some {s s' : St} {u k i a b el rc : Nat} {soft : Bool} (h : create s u k i a b soft el rc = some s') :
-    s.acts u k i = none ∧ ∃ l sh m, escrowOf (s.users u) k a b = some (l, sh, m) ∧ minExecLamports k ≤ el ∧
-      s' = setAct (setUser s u ⟨(s.users u).long - l, (s.users u).short - sh, (s.users u).mt - m⟩) u k i
-        (some ⟨0, l, sh, m, s.now, el, soft, rc⟩) := by
+    s.acts u k i = none ∧ ∃ act0, act0.state = 0 ∧ act0.receiver = rc ∧ outSide k act0 = (0, 0, 0) ∧
+      s'.acts = (setAct s u k i (some act0)).acts ∧ SameFunds s s' ∧ s'.posSize = s.posSize ∧
+      (∀ v, s'.posOpen v = false → s.posOpen v = false) ∧
+      ∃ l sh m, escrowOf (s.users u) k a b = some (l, sh, m) ∧ minExecLamports k ≤ el ∧
+        act0.escLong = l ∧ act0.escShort = sh ∧ act0.escMt = m ∧
+        s'.users = (setUser s u ⟨(s.users u).long - l, (s.users u).short - sh, (s.users u).mt - m⟩).users := by
   unfold create at h
   split at h; · cases h
   rename_i hn
@@ -92,8 +152,32 @@ theorem create_some {s s' : St} {u k i a b el rc : Nat} {soft : Bool} (h : creat
   rename_i l sh m he
   split at h; · cases h
   rename_i hel
-  cases h
-  exact ⟨hn, l, sh, m, he, by omega, rfl⟩
+  split at h; · cases h
+  have hout : outSide k ⟨0, l, sh, m, s.now, el, soft, rc, if k = 4 then 100 * b else if k = 5 then b else 0⟩ = (0, 0, 0) := by
+    have := escrowOf_out he
+    simpa [outSide] using this
+  refine ⟨hn, ⟨0, l, sh, m, s.now, el, soft, rc, if k = 4 then 100 * b else if k = 5 then b else 0⟩, rfl, rfl, hout, ?_, ?_, ?_, ?_,
+    l, sh, m, he, by omega, rfl, rfl, rfl, ?_⟩
+  · by_cases hk : k = 4
+    · subst hk; simp at h; subst h; rfl
+    · simp [hk] at h; subst h; simp [hk, setAct, setUser]
+  · by_cases hk : k = 4
+    · subst hk; simp at h; subst h; exact ⟨rfl, rfl, rfl, rfl, rfl, rfl⟩
+    · simp [hk] at h; subst h; exact ⟨rfl, rfl, rfl, rfl, rfl, rfl⟩
+  · by_cases hk : k = 4
+    · subst hk; simp at h; subst h; rfl
+    · simp [hk] at h; subst h; rfl
+  · intro v hv
+    by_cases hk : k = 4
+    · subst hk; simp at h; subst h
+      simp only [setAct, setUser] at hv
+      by_cases hvu : v = u
+      · simp [hvu] at hv
+      · simpa [hvu] using hv
+    · simp [hk] at h; subst h; exact hv
+  · by_cases hk : k = 4
+    · subst hk; simp at h; subst h; rfl
+    · simp [hk] at h; subst h; rfl
 
 theorem close_some {s s' : St} {who : Who} {u k i : Nat} (h : close s who u k i = some s') :
     ∃ act, s.acts u k i = some act ∧ (who = .user u ∨ (who = .keeper ∧ act.state ≠ 0)) ∧
@@ -122,18 +206,20 @@ theorem solvent_step {s : St} (hs : Solvent s) (op : Op) : Solvent (step s op).1
   | price age => exact ⟨hs.long, hs.short, hs.supply⟩
   | create u k i a b soft el rc =>
     rcases Option.eq_none_or_eq_some (create s u k i a b soft el rc) with hc | ⟨s', hc⟩
-    · simp only [step, hc]; exact hs
-    · simp only [step, hc]
-      obtain ⟨_, l, sh, m, _, _, rfl⟩ := create_some hc
-      exact ⟨hs.long, hs.short, hs.supply⟩
-  | exec who u k i fee throw fail x y hard =>
-    rcases Option.eq_none_or_eq_some (exec s who u k i fee throw fail x y hard) with hc | ⟨⟨s', o, paid⟩, hc⟩
-    · simp only [step, hc]; exact hs
-    · simp only [step, hc]
-      obtain ⟨_, _, act, _, _, _, hcase⟩ := exec_some hc
-      rcases hcase with ⟨_, _, rfl⟩ | ⟨_, _, _, hcomp⟩
+    · simp only [step, hc]; split
       · exact ⟨hs.long, hs.short, hs.supply⟩
-      · obtain ⟨_, _, _, _, _, _, hsol⟩ := complete_some hcomp
+      · exact hs
+    · simp only [step, hc]
+      obtain ⟨_, _, _, _, _, _, hf, _⟩ := create_some hc
+      exact solvent_of_same hf hs
+  | exec who u k i fee throw fail x y hard cl cs ch pc =>
+    rcases Option.eq_none_or_eq_some (exec s who u k i fee throw fail x y hard cl cs ch pc) with hc | ⟨⟨s', o, paid⟩, hc⟩
+    · simp only [step, hc]; exact hs
+    · simp only [step, hc]
+      obtain ⟨_, _, act, _, _, _, _, hcase⟩ := exec_some hc
+      rcases hcase with ⟨_, _, _, _, hf, _⟩ | ⟨_, _, _, hcomp⟩
+      · exact solvent_of_same hf hs
+      · obtain ⟨_, _, _, _, _, hsol, _⟩ := complete_some hcomp
         exact hsol hs
   | close who u k i =>
     rcases Option.eq_none_or_eq_some (close s who u k i) with hc | ⟨s', hc⟩
@@ -160,23 +246,25 @@ theorem step_counts (s : St) (op : Op) (u k i : Nat) :
   | price age => exact ⟨rfl, Nat.le_refl _⟩
   | create a b c x y soft el rc =>
     rcases Option.eq_none_or_eq_some (create s a b c x y soft el rc) with hc | ⟨s', hc⟩
-    · simp [step, hc, isClosed, isCreated, isExecuted]
-    · obtain ⟨hn, l, sh, m, _, _, rfl⟩ := create_some hc
+    · by_cases hb : b = 4
+      · subst hb; simp [step, hc, isClosed, isCreated, isExecuted, openCount, pendingCount, prepPosition]
+      · simp [step, hc, hb, isClosed, isCreated, isExecuted, openCount, pendingCount, prepPosition]
+    · obtain ⟨hn, act0, hst0, _, _, hacts, _⟩ := create_some hc
       by_cases hid : a = u ∧ b = k ∧ c = i
       · obtain ⟨rfl, rfl, rfl⟩ := hid
-        simp [step, hc, isClosed, isCreated, isExecuted, openCount, pendingCount, acts_setAct, setUser, hn]
+        simp [step, hc, isClosed, isCreated, isExecuted, openCount, pendingCount, hacts, acts_setAct, hn, hst0]
       · have hid' : ¬ (u = a ∧ k = b ∧ i = c) := fun h => hid ⟨h.1.symm, h.2.1.symm, h.2.2.symm⟩
         have e : (isCreated u k i (Event.created a b c)) = false := by
           simp only [isCreated]; by_cases h1 : a = u <;> by_cases h2 : b = k <;> by_cases h3 : c = i <;> simp_all
-        simp [step, hc, isClosed, isExecuted, e, openCount, pendingCount, acts_setAct, setUser, hid']
-  | exec who a b c fee throw fail x y hard =>
-    rcases Option.eq_none_or_eq_some (exec s who a b c fee throw fail x y hard) with hc | ⟨⟨s', o, paid⟩, hc⟩
+        simp [step, hc, isClosed, isExecuted, e, openCount, pendingCount, hacts, acts_setAct, hid']
+  | exec who a b c fee throw fail x y hard cl cs ch pc =>
+    rcases Option.eq_none_or_eq_some (exec s who a b c fee throw fail x y hard cl cs ch pc) with hc | ⟨⟨s', o, paid⟩, hc⟩
     · simp [step, hc, isClosed, isCreated, isExecuted]
-    · obtain ⟨_, _, act, hact, hst, _, hcase⟩ := exec_some hc
+    · obtain ⟨_, _, act, hact, hst, _, _, hcase⟩ := exec_some hc
       have hacts : ∃ act', act'.state ≠ 0 ∧ s'.acts = (setAct s a b c (some act')).acts := by
-        rcases hcase with ⟨_, _, rfl⟩ | ⟨_, _, _, hcomp⟩
-        · exact ⟨_, by simp, rfl⟩
-        · obtain ⟨act', h1, h2, _⟩ := complete_some hcomp
+        rcases hcase with ⟨_, _, h, _⟩ | ⟨_, _, _, hcomp⟩
+        · exact ⟨_, by simp, h⟩
+        · obtain ⟨act', h1, _, h2, _⟩ := complete_some hcomp
           exact ⟨act', by omega, h2⟩
       obtain ⟨act', hne, hacts⟩ := hacts
       by_cases hid : a = u ∧ b = k ∧ c = i
@@ -219,37 +307,17 @@ def WellFormed (s : St) : Prop :=
   ∀ u k i act, s.acts u k i = some act →
     (act.state = 1 → inSide k act = (0, 0, 0)) ∧ (act.state ≠ 1 → outSide k act = (0, 0, 0))
 
-theorem escrowOf_out {usr : User} {k a b l sh m : Nat} (h : escrowOf usr k a b = some (l, sh, m)) :
-    outSide k ⟨0, l, sh, m, 0, 0, false, 0⟩ = (0, 0, 0) := by
-  rcases k with _ | _ | _ | _ | k
-  · simp [escrowOf] at h
-    obtain ⟨_, _, _, hm⟩ := h; simp [outSide, ← hm]
-  · simp [escrowOf] at h
-    obtain ⟨_, hl, hs, _⟩ := h; simp [outSide, ← hl, ← hs]
-  · simp [escrowOf] at h
-    obtain ⟨_, _, hs, _⟩ := h; simp [outSide, ← hs]
-  · simp [escrowOf] at h
-    obtain ⟨_, hl, _, _⟩ := h; simp [outSide, ← hl]
-  · simp [outSide]
-
-theorem complete_wf {s s' : St} {u k i x y : Nat} {act : Act} (h : complete s u k i act x y = some s')
-    (hout : outSide k act = (0, 0, 0)) :
-    ∃ act', s'.acts = (setAct s u k i (some act')).acts ∧ act'.state = 1 ∧ inSide k act' = (0, 0, 0) ∧
-      act'.receiver = act.receiver := by
-  rcases k with _ | _ | _ | _ | k
-  · simp only [complete] at h; simp at h; subst h
-    exact ⟨_, rfl, rfl, by simp [inSide], rfl⟩
-  · simp only [complete] at h; simp at h
-    obtain ⟨_, rfl⟩ := h
-    exact ⟨_, rfl, rfl, by simp [inSide], rfl⟩
-  · simp only [complete] at h; simp at h
-    obtain ⟨_, rfl⟩ := h
-    exact ⟨_, rfl, rfl, by simp [inSide], rfl⟩
-  · simp only [complete] at h; simp at h
-    obtain ⟨_, rfl⟩ := h
-    exact ⟨_, rfl, rfl, by simp [inSide], rfl⟩
-  · simp only [complete] at h; simp at h; subst h
-    exact ⟨_, rfl, rfl, by simp [inSide], rfl⟩
+theorem wf_set {s s' : St} (hw : WellFormed s) {u k i : Nat} {act' : Act} (hacts : s'.acts = (setAct s u k i (some act')).acts)
+    (h : (act'.state = 1 → inSide k act' = (0, 0, 0)) ∧ (act'.state ≠ 1 → outSide k act' = (0, 0, 0))) : WellFormed s' := by
+  intro a b c act2 h2
+  rw [hacts] at h2
+  simp only [acts_setAct] at h2
+  split at h2
+  · rename_i hid
+    obtain ⟨rfl, rfl, rfl⟩ := hid
+    cases h2
+    exact h
+  · exact hw a b c act2 h2
 
 theorem wf_step {s : St} (hw : WellFormed s) (op : Op) : WellFormed (step s op).1 := by
   cases op with
@@ -257,44 +325,22 @@ theorem wf_step {s : St} (hw : WellFormed s) (op : Op) : WellFormed (step s op).
   | price age => exact hw
   | create u k i a b soft el rc =>
     rcases Option.eq_none_or_eq_some (create s u k i a b soft el rc) with hc | ⟨s', hc⟩
+    · simp only [step, hc]; split
+      · exact hw
+      · exact hw
+    · simp only [step, hc]
+      obtain ⟨_, act0, hst0, _, hout, hacts, _⟩ := create_some hc
+      exact wf_set hw hacts ⟨fun h => by omega, fun _ => hout⟩
+  | exec who u k i fee throw fail x y hard cl cs ch pc =>
+    rcases Option.eq_none_or_eq_some (exec s who u k i fee throw fail x y hard cl cs ch pc) with hc | ⟨⟨s', o, paid⟩, hc⟩
     · simp only [step, hc]; exact hw
     · simp only [step, hc]
-      obtain ⟨_, l, sh, m, he, _, rfl⟩ := create_some hc
-      intro a b' c act hact
-      simp only [acts_setAct] at hact
-      split at hact
-      · rename_i hid
-        obtain ⟨rfl, rfl, rfl⟩ := hid
-        cases hact
-        refine ⟨fun h => by simp at h, fun _ => ?_⟩
-        have := escrowOf_out he
-        simpa [outSide] using this
-      · exact hw a b' c act hact
-  | exec who u k i fee throw fail x y hard =>
-    rcases Option.eq_none_or_eq_some (exec s who u k i fee throw fail x y hard) with hc | ⟨⟨s', o, paid⟩, hc⟩
-    · simp only [step, hc]; exact hw
-    · simp only [step, hc]
-      obtain ⟨_, _, act, hact, hst, _, hcase⟩ := exec_some hc
+      obtain ⟨_, _, act, hact, hst, _, _, hcase⟩ := exec_some hc
       have hout := (hw u k i act hact).2 (by omega)
-      rcases hcase with ⟨_, _, rfl⟩ | ⟨_, _, _, hcomp⟩
-      · intro a b c act2 h2
-        simp only [acts_setAct] at h2
-        split at h2
-        · rename_i hid
-          obtain ⟨rfl, rfl, rfl⟩ := hid
-          cases h2
-          exact ⟨fun h => by simp at h, fun _ => by simpa [outSide] using hout⟩
-        · exact hw a b c act2 h2
-      · obtain ⟨act', hacts, h1, hin, _⟩ := complete_wf hcomp hout
-        intro a b c act2 h2
-        rw [hacts] at h2
-        simp only [acts_setAct] at h2
-        split at h2
-        · rename_i hid
-          obtain ⟨rfl, rfl, rfl⟩ := hid
-          cases h2
-          exact ⟨fun _ => hin, fun h => absurd h1 h⟩
-        · exact hw a b c act2 h2
+      rcases hcase with ⟨_, _, hacts, _⟩ | ⟨_, _, _, hcomp⟩
+      · exact wf_set hw hacts ⟨fun h => by simp at h, fun _ => by simpa [outSide] using hout⟩
+      · obtain ⟨act', h1, _, hacts, _, _, hin⟩ := complete_some hcomp
+        exact wf_set hw hacts ⟨fun _ => hin hout, fun h => absurd h1 h⟩
   | close who u k i =>
     rcases Option.eq_none_or_eq_some (close s who u k i) with hc | ⟨s', hc⟩
     · simp only [step, hc]; exact hw
@@ -313,5 +359,105 @@ theorem wf_run {s : St} (hw : WellFormed s) (ops : List Op) : WellFormed (run s 
   induction ops generalizing s with
   | nil => exact hw
   | cons op ops ih => exact ih (wf_step hw op)
+
+/-! ### positions: a closed position account has size 0, a decrease needs an open position of positive size -/
+
+/-- a position account that does not exist has size 0. -/
+def PosInv (s : St) : Prop := ∀ u, s.posOpen u = false → s.posSize u = 0
+
+/-- what a completed decrease does to the position: closed exactly when declared closed (then size 0), otherwise it
+stays open with a strictly positive remaining size; and to the funds. -/
+theorem complete_decrease {s s' : St} {u k i x y cl cs ch : Nat} {pc : Bool} {act : Act} (hk : 5 ≤ k)
+    (h : complete s u k i act x y cl cs ch pc = some s') :
+    s.posOpen u = true ∧ 0 < s.posSize u ∧ s'.posOpen u = !pc ∧
+    s'.posSize u = (if pc then 0 else s.posSize u - act.size) ∧ (pc = false → act.size < s.posSize u) ∧
+    (∀ v, v ≠ u → s'.posOpen v = s.posOpen v ∧ s'.posSize v = s.posSize v) ∧
+    s'.vaultLong = s.vaultLong - (x + cl + ch) ∧ s'.recLong + (x + cl + ch) = s.recLong ∧
+    s'.vaultShort = s.vaultShort - (y + cs) ∧ s'.recShort + (y + cs) = s.recShort ∧
+    s'.claimLong = s.claimLong + cl + ch ∧ s'.claimShort = s.claimShort + cs ∧
+    (Solvent s → x + cl + ch ≤ s.vaultLong ∧ y + cs ≤ s.vaultShort) := by
+  rcases k with _ | _ | _ | _ | _ | k
+  · omega
+  · omega
+  · omega
+  · omega
+  · omega
+  simp only [complete] at h; simp at h
+  obtain ⟨h1, h2, h3, rfl⟩ := h
+  refine ⟨h1.1, by omega, by simp, by simp, h2, ?_, rfl, ?_, rfl, ?_, rfl, rfl, ?_⟩
+  · intro v hv; simp [hv]
+  · simp; omega
+  · simp; omega
+  · intro hs; have := hs.long; have := hs.short; omega
+
+theorem complete_pos_other {s s' : St} {u k i x y cl cs ch : Nat} {pc : Bool} {act : Act}
+    (h : complete s u k i act x y cl cs ch pc = some s') (hk : k ≤ 3) : s'.posOpen = s.posOpen ∧ s'.posSize = s.posSize := by
+  rcases k with _ | _ | _ | _ | k
+  · simp only [complete] at h; simp at h; subst h; exact ⟨rfl, rfl⟩
+  · simp only [complete] at h; simp at h; obtain ⟨_, rfl⟩ := h; exact ⟨rfl, rfl⟩
+  · simp only [complete] at h; simp at h; obtain ⟨_, rfl⟩ := h; exact ⟨rfl, rfl⟩
+  · simp only [complete] at h; simp at h; obtain ⟨_, rfl⟩ := h; exact ⟨rfl, rfl⟩
+  · omega
+
+theorem complete_increase_pos {s s' : St} {u i x y cl cs ch : Nat} {pc : Bool} {act : Act}
+    (h : complete s u 4 i act x y cl cs ch pc = some s') :
+    s'.posOpen = s.posOpen ∧ s'.posSize u = s.posSize u + act.size ∧ ∀ v, v ≠ u → s'.posSize v = s.posSize v := by
+  simp only [complete] at h; simp at h; subst h
+  exact ⟨rfl, by simp [setAct], fun v hv => by simp [setAct, hv]⟩
+
+theorem posinv_step {s : St} (hp : PosInv s) (op : Op) : PosInv (step s op).1 := by
+  cases op with
+  | tick dt => exact hp
+  | price age => exact hp
+  | create u k i a b soft el rc =>
+    rcases Option.eq_none_or_eq_some (create s u k i a b soft el rc) with hc | ⟨s', hc⟩
+    · simp only [step, hc]; split
+      · intro v hv
+        simp only [prepPosition] at hv ⊢
+        by_cases hvu : v = u
+        · simp [hvu] at hv
+        · simp [hvu] at hv; exact hp v hv
+      · exact hp
+    · simp only [step, hc]
+      obtain ⟨_, _, _, _, _, _, _, hsz, hop, _⟩ := create_some hc
+      intro v hv; rw [hsz]; exact hp v (hop v hv)
+  | exec who u k i fee throw fail x y hard cl cs ch pc =>
+    rcases Option.eq_none_or_eq_some (exec s who u k i fee throw fail x y hard cl cs ch pc) with hc | ⟨⟨s', o, paid⟩, hc⟩
+    · simp only [step, hc]; exact hp
+    · simp only [step, hc]
+      obtain ⟨_, _, act, _, _, hopen, _, hcase⟩ := exec_some hc
+      rcases hcase with ⟨_, _, _, _, _, hsz, hop⟩ | ⟨_, _, _, hcomp⟩
+      · intro v hv; rw [hsz]
+        rcases hop v hv with h | h
+        · exact hp v h
+        · exact h
+      · by_cases hk : k ≤ 3
+        · obtain ⟨h1, h2⟩ := complete_pos_other hcomp hk
+          intro v hv; rw [h2]; rw [h1] at hv; exact hp v hv
+        · by_cases hk4 : k = 4
+          · subst hk4
+            obtain ⟨h1, h2, h3⟩ := complete_increase_pos hcomp
+            intro v hv; rw [h1] at hv
+            by_cases hvu : v = u
+            · subst hvu; rw [hopen (by omega)] at hv; cases hv
+            · rw [h3 v hvu]; exact hp v hv
+          · obtain ⟨_, _, h3, h4, _, h6, _⟩ := complete_decrease (by omega) hcomp
+            intro v hv
+            by_cases hvu : v = u
+            · subst hvu; rw [h3] at hv; simp at hv; rw [h4, hv]; rfl
+            · obtain ⟨e1, e2⟩ := h6 v hvu; rw [e2]; rw [e1] at hv; exact hp v hv
+  | close who u k i =>
+    rcases Option.eq_none_or_eq_some (close s who u k i) with hc | ⟨s', hc⟩
+    · simp only [step, hc]; exact hp
+    · simp only [step, hc]
+      obtain ⟨act, _, _, rfl⟩ := close_some hc
+      exact hp
+
+theorem posinv_init (l sh : Nat) (now : Int) : PosInv (init l sh now) := fun _ _ => rfl
+
+theorem posinv_run {s : St} (hp : PosInv s) (ops : List Op) : PosInv (run s ops).1 := by
+  induction ops generalizing s with
+  | nil => exact hp
+  | cons op ops ih => exact ih (posinv_step hp op)
 
 end Gmx.Life2
